@@ -70,7 +70,7 @@ impl TlsServerConfig {
         Ok((certs, key))
     }
 
-    fn client_auth(&self) -> Result<Arc<dyn ClientCertVerifier>, Error> {
+    pub fn client_auth(&self) -> Result<Arc<dyn ClientCertVerifier>, Error> {
         self.client
             .as_ref()
             .map(TlsClientVerifyConfig::verifier)
